@@ -471,7 +471,21 @@ func (inc *Incarnation) payCallback() func(string, int) {
 func (n *Node) SwapOut(peerID, chain, scid string, amtSat uint64, premiumLimitPPM int64) (sm *swap.SwapStateMachine, err error, panicText string) {
 	inc := n.Inc()
 	n.w.Emit(n.Name, inc.N, "call.swapout", EvCall{Op: "swapout", Args: fmt.Sprintf("%s %s %s %d %d", peerID, chain, scid, amtSat, premiumLimitPPM)})
-	panicText = n.Call(func() { sm, err = inc.Svc.SwapOut(peerID, chain, scid, n.ID, amtSat, premiumLimitPPM) })
+	// the call may be abandoned (incarnation killed while it runs): its results are only read if it completed
+	type result struct {
+		sm  *swap.SwapStateMachine
+		err error
+	}
+	done := make(chan result, 1)
+	panicText = n.Call(func() {
+		s, e := inc.Svc.SwapOut(peerID, chain, scid, n.ID, amtSat, premiumLimitPPM)
+		done <- result{s, e}
+	})
+	select {
+	case r := <-done:
+		sm, err = r.sm, r.err
+	default:
+	}
 	es := ""
 	if err != nil {
 		es = err.Error()
@@ -484,7 +498,21 @@ func (n *Node) SwapOut(peerID, chain, scid string, amtSat uint64, premiumLimitPP
 func (n *Node) SwapIn(peerID, chain, scid string, amtSat uint64, premiumLimitPPM int64) (sm *swap.SwapStateMachine, err error, panicText string) {
 	inc := n.Inc()
 	n.w.Emit(n.Name, inc.N, "call.swapin", EvCall{Op: "swapin", Args: fmt.Sprintf("%s %s %s %d %d", peerID, chain, scid, amtSat, premiumLimitPPM)})
-	panicText = n.Call(func() { sm, err = inc.Svc.SwapIn(peerID, chain, scid, n.ID, amtSat, premiumLimitPPM) })
+	// the call may be abandoned (incarnation killed while it runs): its results are only read if it completed
+	type result struct {
+		sm  *swap.SwapStateMachine
+		err error
+	}
+	done := make(chan result, 1)
+	panicText = n.Call(func() {
+		s, e := inc.Svc.SwapIn(peerID, chain, scid, n.ID, amtSat, premiumLimitPPM)
+		done <- result{s, e}
+	})
+	select {
+	case r := <-done:
+		sm, err = r.sm, r.err
+	default:
+	}
 	es := ""
 	if err != nil {
 		es = err.Error()
